@@ -130,7 +130,7 @@ fn gen_c15_prompt_then_flood(rng: &mut Rng) -> C15Scenario {
         cmd_files.push(CmdFile { target: path.clone(), command: "build".into(), rel: WorldSpec::default_cmd_rel(&path, "build"), exec: true, broken: false });
         targets.push(TargetSpec { path, ..Default::default() });
     }
-    let spec = WorldSpec { targets, cmd_files, files: vec![], sequences: vec![], max_retained_runs: 2, gitignore: vec![], git: true, lock_host: None, default_ports: 0, omit_max_retained: false, sha256_repo: false, clock_plan: vec![] };
+    let spec = WorldSpec { targets, cmd_files, files: vec![], sequences: vec![], max_retained_runs: 2, gitignore: vec![], git: true, lock_host: None, default_ports: 0, omit_max_retained: false, sha256_repo: false, clock_plan: vec![], script_wrappers: 0 };
     let mut script = RunScript::simple(RunOpts { commands: vec!["build".into()], ..Default::default() });
     let (fa, fb) = (if rng.chance(1, 2) { 1u8 } else { 2 }, if rng.chance(1, 2) { 1u8 } else { 2 });
     let mut flood = Vec::new();
@@ -168,7 +168,7 @@ fn gen_c15_exit_behind_stalled_listener(rng: &mut Rng) -> C15Scenario {
         cmd_files.push(CmdFile { target: path.clone(), command: "build".into(), rel: WorldSpec::default_cmd_rel(&path, "build"), exec: true, broken: false });
         targets.push(TargetSpec { path, ..Default::default() });
     }
-    let spec = WorldSpec { targets, cmd_files, files: vec![], sequences: vec![], max_retained_runs: 2, gitignore: vec![], git: true, lock_host: None, default_ports: 0, omit_max_retained: false, sha256_repo: false, clock_plan: vec![] };
+    let spec = WorldSpec { targets, cmd_files, files: vec![], sequences: vec![], max_retained_runs: 2, gitignore: vec![], git: true, lock_host: None, default_ports: 0, omit_max_retained: false, sha256_repo: false, clock_plan: vec![], script_wrappers: 0 };
     let mut script = RunScript::simple(RunOpts { commands: vec!["build".into()], ..Default::default() });
     let fd = if rng.chance(1, 2) { 1u8 } else { 2 };
     script.behav.push(Behav { command: "build".into(), target: "t00".into(), outs: vec![
@@ -738,7 +738,7 @@ fn gen_c20(seed: u64, idx: usize, tier: Tier) -> C20Scenario {
         }
         targets.push(TargetSpec { path, ..Default::default() });
     }
-    let spec = WorldSpec { targets, cmd_files, files: vec![], sequences: vec![], max_retained_runs: 2, gitignore: vec![], git: false, lock_host: None, default_ports: 0, omit_max_retained: false, sha256_repo: false, clock_plan: vec![] };
+    let spec = WorldSpec { targets, cmd_files, files: vec![], sequences: vec![], max_retained_runs: 2, gitignore: vec![], git: false, lock_host: None, default_ports: 0, omit_max_retained: false, sha256_repo: false, clock_plan: vec![], script_wrappers: 0 };
     let mut script = RunScript::simple(RunOpts { commands: cmds.clone(), targets: if big_filter { spec.targets[..nt].iter().map(|t| t.path.clone()).collect() } else { vec![] }, ..Default::default() });
     let per_task = rng.range(6, 20);
     // one scenario in eight: a long stall of the listener while more is written than the connection can
